@@ -274,6 +274,33 @@ def ref_profile_value(cost, p_hat, free_idx, pinned, sig, warm=None):
     return best_val
 
 
+def inner_problem_has_local_minimum_at(cost, p_hat, free_idx, pinned, sig, target, tol, seed=0):
+    """explain-check for a reported profile point ABOVE the reference: is the reported value itself a local minimum of the inner
+    problem (minimum over the other free parameters with `pinned` held)?  Then the inner problem has two minima and the backend's
+    local minimiser, which walks along the profile from point to point, sits on the other one (Minuit flags the point as valid):
+    the profile of a multimodal inner problem is not something a local minimiser can be held to (same policy as the two-attractor
+    cases of C06).  Multi-start from the optimum +- 1, 2, 3 sigma in every other parameter and 12 random starts within 3 sigma."""
+    others = [i for i in free_idx if i not in pinned]
+    if not others:
+        return False
+    rng = np.random.default_rng(seed)
+    starts = []
+    for k in others:
+        for mult in (1.0, -1.0, 2.0, -2.0, 3.0, -3.0):
+            q = np.array(p_hat, dtype=float)
+            q[k] += mult * sig[k]
+            starts.append(q)
+    for _ in range(12):
+        q = np.array(p_hat, dtype=float)
+        q[others] += rng.uniform(-3.0, 3.0, size=len(others)) * sig[others]
+        starts.append(q)
+    for q0 in starts:
+        v, _q = _ref_profile_from(cost, q0, others, pinned, sig)
+        if np.isfinite(v) and abs(v - target) <= tol:
+            return True
+    return False
+
+
 def _ref_profile_from(cost, q_start, others, pinned, sig):
     q0 = np.array(q_start, dtype=float)
     for i, v in pinned.items():
@@ -510,6 +537,10 @@ def run_fit_case(ctx, case):
                     ctx.discard("reference-profile-not-finite")
                     continue
                 rise = max(r - c_hat, 0.0)
+                if yv - r > ptol + ptol * rise and yv - r > 5e-2 and not (rec and rec.flag_for_point(kk, len(xs)) is False):
+                    if inner_problem_has_local_minimum_at(cost, p_hat, free_idx, {i: float(xv)}, sig, float(yv), 10 * (ptol + ptol * rise), seed=case["aux_seed"]):
+                        ctx.discard("profile-point-on-a-second-local-minimum-of-the-inner-problem")
+                        continue
                 ctx.check("profile-point", abs(yv - r) <= ptol + ptol * rise, lambda: dict(d, parameter=names[i], x=float(xv), got=float(yv), expected=r, rise=rise, tolerance=ptol + ptol * rise, scipy_success=(rec.flag_for_point(kk, len(xs)) if rec else None)),
                           key=(lambda: "C06/scipy-backend-accepts-unconverged-result" if (rec and yv > r and rec.flag_for_point(kk, len(xs)) is False) else None))
                 ctx.worst["profile_dev_" + minimizer] = max(ctx.worst.get("profile_dev_" + minimizer, 0.0), float(abs(yv - r) / (1.0 + rise)))
@@ -668,7 +699,12 @@ def run_fit_case(ctx, case):
             pe2 = np.array(fit.parameter_errors, dtype=float)
             dev2 = np.abs(cm2 - C2) / np.outer(ss, ss)
             d2 = dict(d, fixed_after_fit=names[k])
-            tol2 = tol if minimizer == "scipy" else max(tol, 1e-1)  # HESSE started from the state MINUIT kept from the previous parameter set
+            # HESSE started from the state MINUIT kept from the previous parameter set (no MIGRAD estimate to refine): with strategy 1
+            # its second derivatives are iterated until they change by < 5 % (MnStrategy HessianG2Tolerance); a relative error eps in a
+            # diagonal element H_kk moves C_kk by eps * C_kk (C^-1)_kk = eps / (1 - rho_k^2), rho_k the global correlation coefficient
+            # (thorough tier, poly3 with rho^2 = 0.985: variances 6-11 % off after fix + release, H itself good to 0.2 %)
+            amp = float(np.max(np.diag(C[np.ix_(free_idx, free_idx)]) * np.diag(H) / 2.0))
+            tol2 = tol if minimizer == "scipy" else max(tol, min(0.3, max(1e-1, 5e-2 * amp)))
             ctx.check("cov=2Hinv.after-fix", bool(np.all(dev2 <= tol2)), lambda: dict(d2, got=cm2, expected=C2, max_normalised_deviation=float(dev2.max()), tolerance=tol2))
             ctx.check("errors=sqrt-diag.after-fix", bool(np.all(np.abs(pe2 - np.sqrt(np.diag(cm2))) <= 1e-3 * ss + 1e-12)), lambda: dict(d2, errors=pe2, sqrt_diag_cov=np.sqrt(np.diag(cm2))))
             cor2 = fit.parameter_cor_mat
